@@ -130,7 +130,7 @@ fn pipe_case(rt: &tokio::runtime::Runtime, dir: &Path, case: &Value, n: usize) -
 	let built = catch(|| rt.block_on(factory.operation_from_vpl(&vpl)));
 	let empty = |ev: &mut Value| {
 		ev["declared"] = json!({"tf":"","tc":""});
-		for k in ["cov", "lookups", "streams", "expect"] {
+		for k in ["cov", "lookups", "streams", "expect", "child_cov"] {
 			ev[k] = json!([]);
 		}
 	};
@@ -153,6 +153,19 @@ fn pipe_case(rt: &tokio::runtime::Runtime, dir: &Path, case: &Value, n: usize) -
 	};
 	ev["built"] = json!(1);
 	ev["panic"] = json!(0);
+	// an overlay's coverage is stated relative to what its SOURCES advertise: build every listed source on its own and log
+	// the coverage it advertises (observations)
+	let mut child_cov: Vec<Value> = vec![];
+	if tree["op"] == "overlay" {
+		for child in tree["srcs"].as_array().unwrap() {
+			let cv = render(child);
+			match catch(|| rt.block_on(factory.operation_from_vpl(&cv))) {
+				Ok(Ok(cop)) => child_cov.push(pyramid_json(&cop.get_parameters().bbox_pyramid)),
+				_ => child_cov.push(json!("unbuildable")),
+			}
+		}
+	}
+	ev["child_cov"] = json!(child_cov);
 	let parameters = op.get_parameters().clone();
 	let declared = parameters.tile_compression.as_str().to_string();
 	ev["declared"] = json!({"tf": parameters.tile_format.as_str(), "tc": declared});
